@@ -300,6 +300,10 @@ fn run_c17(ctx: &mut Ctx) {
     run_mode(ctx, Mode::Ap)
 }
 fn run_c05(ctx: &mut Ctx) {
+    if std::env::var("VERIF_C05_CORELIB_ONLY").is_ok() {
+        crate::c05corelib::run(ctx);
+        return;
+    }
     run_mode(ctx, Mode::Diff);
     if ctx.tier == Tier::Thorough {
         crate::c05corelib::run(ctx);
